@@ -13,7 +13,7 @@ use serde::{Deserialize, Serialize};
 
 use crate::common::{event, events_digest, events_reset, guarded, panic_site, step_crumb, Violation};
 use crate::exact::{width, Class, Row, Q};
-use crate::gen::{self, Knobs, SlotInfo};
+use crate::gen::{self, SlotInfo};
 use crate::lit::*;
 use crate::lpseam::{self, FaultPlan, LpRecord, Mode, Seam};
 use crate::model::{count_fat_leaves, walk, AffQ, Disagreement, ModelTree, RTree, WalkStats};
@@ -777,18 +777,27 @@ impl Exec {
                         out.violations.push(self.viol(Clause::Cache, &class, &site, detail));
                         out.stop = true;
                     }
-                    // remove_axes must have reset every cached state
-                    if let Some((idx, _)) = self.pool[*slot].tree.node_iter().find(|(_, n)| !matches!(n.value.state, NodeState::Indeterminate)) {
-                        out.violations.push(self.viol(
-                            Clause::Cache,
-                            "stale_state_after_remove_axes",
-                            &site,
-                            format!("node {idx} keeps a cached feasibility state although the input space changed"),
-                        ));
-                        out.stop = true;
-                    }
                 }
                 if let Some(m) = m {
+                    self.models[*slot] = m;
+                }
+            }
+            Op::RemoveAxes { slot, keep } => {
+                if *slot >= n_slots {
+                    invalid!();
+                }
+                let me = self.models[*slot].clone();
+                if keep.len() != me.in_dim || keep.iter().all(|k| *k) || keep.iter().all(|k| !*k) {
+                    invalid!();
+                }
+                // dropping a column = fixing that coordinate to 0
+                let pq: Vec<Option<Q>> = keep.iter().map(|k| if *k { None } else { Some(Q::zero()) }).collect();
+                let expected = me.slice(&pq);
+                let nb = self.pool[*slot].len();
+                let mask = Array1::from_vec(keep.clone());
+                let r = guarded(|| self.pool[*slot].remove_axes(&mask).expect("mask has the tree's input dimension"));
+                self.absorb_records();
+                if let Some(m) = self.finish(*slot, &site, r, &expected, false, RefEval::ModelOnly, nb, &mut out) {
                     self.models[*slot] = m;
                 }
             }
@@ -1334,7 +1343,7 @@ pub fn seeded_fault_scenario_traced(run_seed: u64, thorough: bool, print: bool) 
         pool.push(c);
     }
     let prefix_len = rng.below(4);
-    let suffix_len = 1 + rng.below(3);
+    let suffix_len = 1 + rng.below(4);
     let mut sc = Scenario {
         pool,
         history: Vec::new(),
@@ -1393,7 +1402,10 @@ pub fn seeded_fault_scenario_traced(run_seed: u64, thorough: bool, print: bool) 
         }
         let mut k2 = knobs.clone();
         k2.pipeline_pm = k2.pipeline_pm.max(150);
-        let Some(op) = gen::gen_op(&mut rng, &k2, &infos, true) else { break };
+        // the first faulty step always prunes; later ones may be ordinary operations working on the
+        // leftovers of the faulty ones (reduce, clone, apply_func, unpruned composition, ...)
+        let only_pruning = sc.history.len() == sc.fault_from_step || rng.chance(2, 3);
+        let Some(op) = gen::gen_op(&mut rng, &k2, &infos, only_pruning) else { break };
         let rep = ex.step(&op);
         if rep.invalid || rep.stop || !rep.violations.is_empty() {
             lpseam::uninstall();
@@ -1421,7 +1433,7 @@ pub fn seeded_fault_scenario_traced(run_seed: u64, thorough: bool, print: bool) 
     }
     let base_nodes: Vec<usize> = base_pool.iter().map(|t| t.len()).collect();
     let menu = lpseam::FaultKind::menu();
-    let mut try_plan = |plan: FaultPlan, stats: &mut PwlStats, result: &mut FaultScenarioResult| {
+    let try_plan = |plan: FaultPlan, stats: &mut PwlStats, result: &mut FaultScenarioResult| {
         let mut s = sc.clone();
         s.fault_plan = plan;
         event(&format!("plan {:?}", s.fault_plan.faults.iter().map(|(k, f)| format!("{k}:{}", f.label())).collect::<Vec<_>>()));
